@@ -40,10 +40,10 @@ findings.append(dict(
 
 XR = 'XarrayStream.run selects the window with ds[var].sel(time=slice(starting, ending)): an xarray label slice is closed on both ends, and the selection is only made when both bounds are given.'
 for key, what in (
-    ('xarray:both:wrong-rows', 'a row whose time equals `ending` is evaluated although the window is starting <= t < ending (e.g. window [t1, t3) evaluates rows 1,2,3).'),
-    ('xarray:starting-only:wrong-rows', 'a window with only `starting` is ignored: every row is evaluated.'),
-    ('xarray:ending-only:wrong-rows', 'a window with only `ending` is ignored: every row is evaluated.'),
-    ('xarray:unexpected-results', 'consequently the results carry row masks that no configured window accounts for (same construct).'),
+    ('xarray:table:both:wrong-rows', 'a row whose time equals `ending` is evaluated although the window is starting <= t < ending (e.g. window [t1, t3) evaluates rows 1,2,3).'),
+    ('xarray:table:starting-only:wrong-rows', 'a window with only `starting` is ignored: every row is evaluated.'),
+    ('xarray:table:ending-only:wrong-rows', 'a window with only `ending` is ignored: every row is evaluated.'),
+    ('xarray:table:unexpected-results', 'consequently the results carry row masks that no configured window accounts for (same construct).'),
 ):
     findings.append(dict(property='C05', rule='C05.extra' if key.endswith('results') else 'C05.rows', key=key, status='known',
                          what=XR + ' ' + what, why_not_fixed='needs a redesign of the label-to-index reconstruction in XarrayStream.run (half-open interval, open bounds); not a small patch.'))
@@ -57,6 +57,21 @@ for key in ('collect_results_list:raises-ValueError:collected[cr.hash_key].zinp[
              'or IndexError when an all-covering context rebound the accumulator to the empty array first). PandasStore.save guards the same fields with .size != 0. '
              'Seen with NumpyStream / PandasStream, two contexts, table without z.',
         why_not_fixed='guarding the four scatters changes what the stores later write for absent axes (all-masked columns vs none); needs a maintainer decision.'))
+
+findings.append(dict(
+    property='C15', rule='C15.data', key='ioos_qc.argo.pressure_increasing_test:integer-array:arithmetic-in-integer-dtype', status='known',
+    what='pressure_increasing_test differences its input in the input dtype: an unsigned integer array wraps around, e.g. '
+         'pressure_increasing_test(np.array([5,3,6], dtype=uint8)) -> [1,1,1] while the same values as float -> [1,3,1].',
+    why_not_fixed='same root cause as the missing normalisation of pressure_increasing_test (recorded above).'))
+
+for key, rule in (('pandas:duplicate-labels:both:wrong-rows', 'C05.rows'), ('pandas:duplicate-labels:unexpected-results', 'C05.extra')):
+    findings.append(dict(
+        property='C05', rule=rule, key=key, status='known',
+        what='PandasStream marks the tested rows by index label (subset_indexes.loc[subset.index] = True): in a DataFrame with repeated row labels '
+             '(e.g. two frames concatenated without ignore_index) every row sharing a label with a window row is marked, so subset_indexes has more True '
+             'entries than there are results (index [0,1,2,0,1], window over rows 1..3: mask all True, 3 flags).',
+        why_not_fixed='needs positional bookkeeping through the successive .loc filters (a small refactor of PandasStream.run, not a one-line repair); '
+                      'the earlier positional variant (iloc) was wrong for every non-default index and was fixed in 74329b5.'))
 
 fixed = [
     'fixed: property=C09 968352c spike_test ignored suspect_threshold=0 / fail_threshold=0 (truthiness gates); also the C16 clause "a threshold given as zero"',
